@@ -3,7 +3,7 @@
        <graph> nroots { root status <pre> <post> <revpost> <revarg> <euler> <enterOnly> <exitOnly> }^nroots 1 <graph>
    (nroots >= 1, pure = 1, the argument graph after the calls is the argument graph), the graph is
    well-formed, and for every recorded root:
-     - root outside the graph: the observed status is 2 (a call panicked) - nothing else is compared;
+     - root outside the graph: the observed status is 2 (a call panicked) and all seven lists are empty;
      - root r < n: status 0 (every call returned) and there is ONE event sequence evs with
        dfs_node (g_out g) [] r evs V'  (Spec/Dfs.v: the depth-first specification from the empty visited
        set, unique by C18_dfs_unique) such that PreOrder = the Enter projection, PostOrder = the Exit
@@ -46,7 +46,8 @@ Proof.
 Qed.
 
 Definition trav_ok (g : graph) (o : trav_obs) : Prop :=
-  ((t_root o < 0 \/ Z.of_nat (length g) <= t_root o) -> t_status o = 2) /\
+  ((t_root o < 0 \/ Z.of_nat (length g) <= t_root o) ->
+     t_status o = 2 /\ t_pre o = [] /\ t_post o = [] /\ t_rev o = [] /\ t_rva o = [] /\ t_eul o = [] /\ t_ent o = [] /\ t_ext o = []) /\
   (0 <= t_root o < Z.of_nat (length g) ->
      t_status o = 0 /\
      exists evs V', dfs_node (g_out g) [] (Z.to_N (t_root o)) evs V' /\
@@ -72,7 +73,10 @@ Proof.
   intros g fuel o H. unfold trav_one in H. unfold g_n in H. rewrite nat_N_Z in H.
   destruct ((t_root o <? 0) || (Z.of_nat (length g) <=? t_root o)) eqn:Eout.
   - cbn [snd] in H. apply Bool.orb_true_iff in Eout. split; [|intro; destruct Eout as [E|E]; [apply Z.ltb_lt in E|apply Z.leb_le in E]; lia].
-    intros _. destruct (t_status o =? 2) eqn:Es; [apply Z.eqb_eq in Es; exact Es|discriminate].
+    intros _. destruct (t_status o =? 2) eqn:Es; [apply Z.eqb_eq in Es|discriminate]. cbn [andb] in H.
+    match type of H with (if ?b then _ else _) = _ => destruct b eqn:EL; [|discriminate] end.
+    apply Nat.eqb_eq in EL. rewrite !app_length in EL.
+    repeat split; try exact Es; apply length_zero_iff_nil; lia.
   - apply Bool.orb_false_iff in Eout. destruct Eout as [E1 E2]. apply Z.ltb_ge in E1. apply Z.leb_gt in E2.
     split; [lia|]. intros _. cbn [snd] in H. cbv zeta in H. unfold euler in H.
     set (out := gm_out (gm_build g)) in *. set (r := Z.to_N (t_root o)) in *.
@@ -97,17 +101,17 @@ Proof.
     repeat split; symmetry; assumption.
 Qed.
 
-Theorem check_trav_sound : forall l c tag pos diag r,
-  check_trav l = Some (verdict c tag pos diag, r) -> c = 0 \/ c = 1 -> c = 0 /\ r = [] /\ trav_case_ok l.
+Theorem check_trav_sound : forall l c v r,
+  check_trav l = Some (c :: v, r) -> c = 0 \/ c = 1 -> c = 0 /\ r = [] /\ trav_case_ok l.
 Proof.
-  intros l c tag pos diag r H Hc. unfold check_trav in H. pinv H. subst.
+  intros l c v r H Hc. unfold check_trav in H. pinv H. subst.
   destruct (g_wfb a) eqn:Ewf; cbn [negb orb] in Ev; [|rejected Ev]. apply g_wfb_spec in Ewf.
   destruct (length a0 =? 0)%nat eqn:EL; [rejected Ev|]. apply Nat.eqb_neq in EL.
   cbv zeta in Ev.
   destruct (trav_all (gm_out (gm_build a)) (g_n a) (S (length a)) a0 0 0) as [bits [[idx k]|]] eqn:ET; [rejected Ev|].
   destruct ((a1 =? 1) && graph_eqb a a2) eqn:EP; [|rejected Ev].
   apply andb_prop in EP. destruct EP as [EP1 EP2]. apply Z.eqb_eq in EP1. geq. subst.
-  pose proof (verdict_code _ _ _ _ _ _ _ _ Ev) as C. unfold V_OK in C. subst c.
+  pose proof (verdict_code _ _ _ _ _ _ Ev) as C. unfold V_OK in C. subst c.
   split; [reflexivity|]. split; [reflexivity|]. exists a, a0. split; [|split; [exact Ewf|split]].
   - apply (plist_any_layout _ _ p_trav_layout) in E0. lay. subst. rewrite ?app_nil_r. reflexivity.
   - intros ->. apply EL. reflexivity.
